@@ -40,6 +40,11 @@ type DiskWriter struct {
 	egCtx       context.Context
 	filter      FilterFunc
 	dirModTimes map[string]int64
+
+	// modeMu keeps the two places apart that change the mode of what may be
+	// one and the same inode: the metadata of a hard link, and a content writer
+	// that makes a read-only file writable for the moment it needs to open it.
+	modeMu sync.Mutex
 }
 
 func NewDiskWriter(ctx context.Context, dest string, opt DiskWriterOpt) (*DiskWriter, error) {
@@ -207,7 +212,15 @@ func (dw *DiskWriter) HandleChange(kind ChangeKind, p string, fi os.FileInfo, er
 		}
 	}
 
-	if err := rewriteMetadata(newPath, statCopy); err != nil {
+	isHardlink := statCopy.Linkname != "" && fi.Mode()&os.ModeType == 0
+	if isHardlink {
+		dw.modeMu.Lock()
+	}
+	err = rewriteMetadata(newPath, statCopy)
+	if isHardlink {
+		dw.modeMu.Unlock()
+	}
+	if err != nil {
 		return errors.Wrapf(err, "error setting metadata for %s", newPath)
 	}
 
@@ -241,7 +254,8 @@ func (dw *DiskWriter) requestAsyncFileData(p, dest string, fi os.FileInfo, st *t
 	// todo: limit worker threads
 	dw.eg.Go(func() error {
 		if err := dw.processChange(dw.egCtx, ChangeKindAdd, p, fi, &lazyFileWriter{
-			dest: dest,
+			dest:   dest,
+			modeMu: &dw.modeMu,
 		}); err != nil {
 			return err
 		}
@@ -324,13 +338,18 @@ type lazyFileWriter struct {
 	dest     string
 	f        *os.File
 	fileMode *os.FileMode
+	modeMu   *sync.Mutex
 }
 
 func (lfw *lazyFileWriter) Write(dt []byte) (int, error) {
 	if lfw.f == nil {
 		file, err := os.OpenFile(lfw.dest, os.O_WRONLY, 0)
 		if os.IsPermission(err) {
-			// retry after chmod
+			// retry after chmod; nobody may take the write permission away
+			// again (metadata of a hard link to this file) before it is open
+			if lfw.modeMu != nil {
+				lfw.modeMu.Lock()
+			}
 			fi, er := os.Stat(lfw.dest)
 			if er == nil {
 				mode := fi.Mode()
@@ -340,6 +359,9 @@ func (lfw *lazyFileWriter) Write(dt []byte) (int, error) {
 					verifAfterWriterChmod(lfw.dest)
 					file, err = os.OpenFile(lfw.dest, os.O_WRONLY, 0)
 				}
+			}
+			if lfw.modeMu != nil {
+				lfw.modeMu.Unlock()
 			}
 		}
 		if err != nil {
